@@ -300,6 +300,7 @@ def run(facts, tier):
     c11.c11_7(facts, res, facts.fn("xml_info::<XmlElement as Element>::attributes"), rule="R01-7")
     r01_8(facts, res)
     r01_9(facts, res)
+    c11.c11_1(facts, res, "R01-11")     # attribute values after reference expansion: the arms of the two expansion routines
     # a well-formed start tag may carry a:id next to b:id: the duplicate test has to compare whole names (shared with C02)
     from props import c02
     ok, why = c02.wfc_unique_att(facts)
